@@ -42,7 +42,10 @@ OnDown(e) ==
        ELSE LET k == CHOOSE x \in K : TRUE IN
             IF e.code >= 128 THEN OK([Deregister_do(s, k) EXCEPT !.gone = @ \cup {<<e.c, e.tok>>}])   \* error response ends the observation
             ELSE IF e.obs < 0 THEN Bad("C11:notification-without-observe-option")
-            ELSE IF ~Notify_fresh(s, k, e.obs) THEN Bad("C11:observe-value-not-strictly-greater")
+            ELSE IF ~Notify_fresh(s, k, e.obs)
+                 THEN IF KF("KF_C11_PENDING_CHANGE_REPEATS_REGISTRATION_VALUE") /\ s.obs[k].reg /\ e.obs = s.obs[k].last /\ e.state = s.obs[k].state
+                      THEN [why |-> "", s |-> Notify_do(s, k, e.obs, e.ty = 0, e.state), kf |-> "KF_C11_PENDING_CHANGE_REPEATS_REGISTRATION_VALUE"]
+                      ELSE Bad("C11:observe-value-not-strictly-greater")
             ELSE IF ~Notify_type(s, k, e.ty = 0) THEN Bad("C11:more-than-five-non-confirmable-notifications-in-a-row")
             ELSE OK(Notify_do(s, k, e.obs, e.ty = 0, e.state))
 
@@ -90,7 +93,8 @@ Consume ==
                /\ mids' = IF ~isNotif THEN mids
                           ELSE IF pk \in DOMAIN mids THEN [mids EXCEPT ![pk].copies = @ + 1]
                           ELSE Put(mids, pk, [key |-> IF K = {} THEN <<-1, -1, "">> ELSE CHOOSE x \in K : TRUE, copies |-> 1, acked |-> FALSE, con |-> (e.ty = 0), val |-> e.obs])
-               /\ UNCHANGED <<cur, pendReq, known, nexec, rstate, maxrtx, lastChange, errmode>>
+               /\ known' = IF r.kf = "" THEN known ELSE known \cup {r.kf}
+               /\ UNCHANGED <<cur, pendReq, nexec, rstate, maxrtx, lastChange, errmode>>
        [] e.e = "AckSent" /\ ~skip ->
             /\ mids' = IF <<e.c, e.mid>> \in DOMAIN mids THEN [mids EXCEPT ![<<e.c, e.mid>>].acked = TRUE] ELSE mids
             /\ UNCHANGED <<rej, cur, skip, s, pendReq, known, nexec, rstate, maxrtx, lastChange, errmode>>
